@@ -1386,6 +1386,66 @@ pub fn run(tier: &str) -> i32 {
     totals[C_PERFORMED] += c[0];
   }
 
+  // ------------------------------------------------------------ OAM DMA from every page, every configuration
+  // The DMA engine reads its source when time passes, through whatever path the memory module
+  // uses for it; the page is a guest-controlled value and the cartridge RAM window behind
+  // pages A0-BF depends on the header's RAM size and on the RAM-enable / bank registers.
+  {
+    let n = (cfgs.len() * 4) as u64;
+    let opts = PoolOpts { chunk: 1, bitmap_bits: 1 << 12, samples_per_child: 1, ..PoolOpts::default() };
+    let r = run_pool(
+      n,
+      &opts,
+      |_| (),
+      |_, case, ctx: &mut Ctx| {
+        let cfg = cfgs[(case / 4) as usize];
+        let regs = (case % 4) as usize;
+        let mut core_box = match load_like_main(path_of(cfg)) {
+          Ok(c) => c,
+          Err(_) => {
+            ctx.count(C_LOADFAIL, 1);
+            return;
+          },
+        };
+        let core = &mut core_box;
+        let m = &mut core.memory as *mut MemoryAreas;
+        ctx.sample(|| J::obj().set("stage", J::s("oam-dma-every-page")).set("config", cfg.json()).set("registers", J::s(["power-on", "ram enabled", "ram enabled, ram bank 3, mode 1", "ram enabled, rom bank FF, upper 3"][regs])));
+        match regs {
+          0 => {},
+          1 => memory_write_byte(m, 0x0000, 0x0A),
+          2 => {
+            memory_write_byte(m, 0x0000, 0x0A);
+            memory_write_byte(m, 0x6000, 0x01);
+            memory_write_byte(m, 0x4000, 0x03);
+          },
+          _ => {
+            memory_write_byte(m, 0x0000, 0x0A);
+            memory_write_byte(m, 0x2000, 0xFF);
+            memory_write_byte(m, 0x4000, 0x03);
+          },
+        }
+        for page in 0..=255u8 {
+          memory_write_byte(m, 0xFF46, page);
+          // one byte, then a batch that ends mid-transfer, then the rest and a little more
+          core.memory.run_clock_cycles(crate::timing::ClockCycles(4));
+          core.memory.run_clock_cycles(crate::timing::ClockCycles(4 * 77));
+          core.memory.run_clock_cycles(crate::timing::ClockCycles(4 * 100));
+          ctx.count(0, 161);
+        }
+        ctx.class(0xC000 | case);
+      },
+      |case, how| {
+        let cfg = cfgs[(case / 4) as usize];
+        (
+          format!("C11 cfg={} access=oam-dma region=every-page kind={}", cfg.class_name(), how),
+          J::obj().set("case", J::obj().set("config", cfg.json()).set("registers", J::u(case % 4)).set("what", J::s("banking registers set (0: power-on, 1: RAM enabled, 2: RAM enabled + RAM bank 3 + mode 1, 3: RAM enabled + ROM bank FF + upper bits 3), then for every page 00..FF: the page written to 0xFF46 and 4 + 308 + 400 clocks of time"))),
+        )
+      },
+    );
+    let c = rep.add_stage("oam-dma-every-page", "every configuration x 4 banking-register states (power-on; RAM enabled; RAM enabled + RAM bank 3 + mode 1; RAM enabled + ROM bank FF + upper bits 3) x all 256 source pages written to 0xFF46, each followed by 712 clocks of time in three batches", r);
+    totals[C_PERFORMED] += c[0];
+  }
+
   // ------------------------------------------------------------ files the loader may accept
   // "every ... size that a loadable ROM file can declare": the file itself is part of the
   // configuration.  Files shorter than what their header declares are offered to the real
